@@ -17,6 +17,9 @@ use crate::fw::{catch, panic_signature, run_prop, Ctx, PropSpec, Report, Stats, 
 use crate::gen::{arb_name, pool_name};
 use crate::{ensure, fail};
 
+#[path = "c24io.rs"]
+pub mod io;
+
 fn hex(b: &[u8]) -> String {
     b.iter().map(|x| format!("{x:02x}")).collect()
 }
@@ -465,6 +468,8 @@ pub fn run(ctx: &Ctx, report: &mut Report) {
             .into();
         report.assumptions.push("vmodel::rdata::validate as the validity reference".into());
         run_prop(ctx, report, PropSpec { name: "parser-total", cases: ctx.tier.pick(150_000, 3_000_000), max_shrink_iters: 4096 }, raw_case, oracle_c24);
+        report.assumptions.push("sub-check parser-short-reads: the same inputs delivered through a Read stream that cuts them into generated read sizes and fails one read with a generated io::ErrorKind".into());
+        run_prop(ctx, report, PropSpec { name: "parser-short-reads", cases: ctx.tier.pick(60_000, 1_000_000), max_shrink_iters: 2048 }, io::raw_io_case, io::oracle_io);
     } else {
         report.rule = "record lists (every supported type incl. WKS, Chaosnet A, SRV; unknown types and classes in RFC 3597 generic form; \
             names with arbitrary octets; strings up to 255 octets; TTLs < 2^31) rendered by the independent pretty-printer, which \
@@ -476,11 +481,15 @@ pub fn run(ctx: &Ctx, report: &mut Report) {
             .into();
         report.assumptions.push("the printer (vmodel::zonefile) only emits text with one reading under RFC 1035 §5 / RFC 3597 §5".into());
         run_prop(ctx, report, PropSpec { name: "print-parse", cases: ctx.tier.pick(40_000, 1_000_000), max_shrink_iters: 8192 }, case_strategy, oracle_c23);
+        run_prop(ctx, report, PropSpec { name: "parser-short-reads", cases: ctx.tier.pick(20_000, 400_000), max_shrink_iters: 2048 }, io::valid_io_case, io::oracle_io);
     }
 }
 
 pub fn replay(check: &str, case: &serde_json::Value) -> Verdict {
     use crate::fw::replay_case;
+    if check == "parser-short-reads" {
+        return replay_case::<io::IoCase, _>(case, io::oracle_io);
+    }
     if check == "parser-total" {
         replay_case::<RawCase, _>(case, oracle_c24)
     } else {
